@@ -122,8 +122,7 @@ def main():
         "not_applicable": na,
         "notes": "Technique family: static analysis only (no repository code is imported or run by any check). Numeric clauses of the properties (rounding, tolerances, measured rates) are declared not decided per check in level_note and DESIGN.md section 4. Genuine defects found and repaired are listed in known_findings.json (status fixed). Tiers: the symbolic rows of the quick tier already cover all N of each parity, all L, dt, coefficients and states; the thorough tier adds the configuration rows quick prunes (both parities everywhere, longer coefficient tuples, all ETDRK orders, larger n) and, when the property held, a rule-liveness pass: every mutation witness of the property (selftest/witnesses.py, one construct of the current tree edited in a scratch copy outside /repo and /verif) must still be reported by the quick check, so that a rule whose anchors vanished cannot pass vacuously (exit 2 if one is no longer reported). Exit 2 / ANALYSIS-ERROR = no verdict (unsupported construct, vanished anchor); a definite exception of the interpreted repository code in a covered configuration is a VIOLATION of rule no-raise.",
     }
-    if not na:
-        del m["not_applicable"]
+    # an explicit (possibly empty) list: every property is claimed; the declined CLAUSES are in each level_note / notes
     json.dump(m, open(os.path.join(HERE, "MANIFEST.json"), "w"), indent=1)
     print("claimed:", sorted(CLAIMED))
 
